@@ -595,6 +595,12 @@ def concrete_failure(prop, m):
     if prop == 'C14' and m.get('kind') == 'state' and op.startswith('tx swap'):
         # an accepted swap mints exactly amount/100 to the receiver and records it (Props/C14)
         return True
+    if prop == 'C16' and m.get('kind') == 'state' and op.startswith('tx nodeSubscribe') and ' gb=0 ' not in op + ' ' \
+            and any(' vpn deposit ' in x or ' vpn subscription 10' in x for x in m.get('only_impl', [])):
+        # the deposit of an accepted gigabyte purchase is the charge for gb x 10^9 bytes at the quoted price, i.e.
+        # the smallest whole number not below p*b/10^9 (Props/C05 node_sub_gb_escrows_quote over Props/C16 afb_exact):
+        # a different deposit on the implementation is a byte count charged inexactly
+        return True
     if prop == 'C05' and m.get('kind') == 'state' and (op.startswith('tx planSubscribe') or op.startswith('tx nodeSubscribe')):
         # an accepted purchase moves exactly quote x quantity / the plan price, split into the exactly rounded fee
         # and the rest (Props/C05, single-step theorems about the model): a different movement is a failing purchase
